@@ -220,9 +220,17 @@ func Main(args []string) {
 		famInfo = append(famInfo, info)
 	}
 
+	unreproduced := 0
 	for _, k := range sigOrder {
 		f := bySig[k]
 		n := reproductions(wargs, f.v, 5)
+		if f.v.Sig == "process-died" && n == 0 {
+			// a worker that died once and survives five fresh executions of the same case was killed by
+			// its environment (out of memory, pids exhausted, signal), not by the case
+			fmt.Fprintf(os.Stderr, "note: worker death on %s not reproduced in 5 runs; not reported\n", f.v.Case)
+			unreproduced += f.count
+			continue
+		}
 		rep.Report(evidence.Report{Oracle: f.v.Oracle, Sig: f.v.Sig, Detail: fmt.Sprintf("%s (reproduced %d/5)", f.v.Detail, n),
 			Replay: map[string]any{"case": f.v.Case, "seed": seed, "reproduced_of_5": n,
 				"how_to_read": "v<variant>:c<commit-after-step bitmask>:<steps>; steps: C create, T set-title, M add-comment, S set-status, L label-change, E edit-comment, N no-op, D set-metadata; K.field=i takes catalogue value i for that field (harness/props/c04/catalogue.go)"},
@@ -268,6 +276,7 @@ func Main(args []string) {
 		"rule":                               Rule,
 		"families":                           famInfo,
 		"counters":                           other,
+		"worker_deaths_not_reproduced":       unreproduced,
 		"exhaustive":                         exhaustive,
 		"samples":                            samples,
 	}
@@ -400,6 +409,10 @@ func Worker(args []string) {
 		}
 	}
 	w := &wk{seed: seed, dir: filepath.Join(scratch, "w")}
+	// the scratch directory is named after the pid: drop whatever a dead process of the same pid left
+	for _, stale := range []string{w.dir, w.dir + ".tmpl", w.dir + ".tmpl.json"} {
+		os.RemoveAll(stale)
+	}
 	subproc.Serve(func(line string) any {
 		f := strings.Fields(line)
 		if len(f) == 0 {
